@@ -1,6 +1,7 @@
 import SafeC.Proofs.NormSpec
 import SafeC.Proofs.NormRoom
 import SafeC.Proofs.NormCompose
+import SafeC.Proofs.NormNFC2
 import SafeC.Proofs.FoldCount
 /-!
 # C17 — "Unicode normalization and case folding follow the Unicode standard"
@@ -21,7 +22,9 @@ What is false of the code as it stands, and therefore `_partial` + `_witness` (e
 * wcsnorm_reorder_s / wcsnorm_compose_s index tables with cells > 0x10FFFF → `reorder_range_witness`, `compose_range_witness`,
   repaired: `reorder_range_fixed`, `compose_range_fixed`
 * iswfc announces 0/1 where towfc_s does / does not fold (748 code points) → `fold_announce_partial`, witnesses in FoldCount.lean
-NFC conformance for all strings (D117 over the composition pass) is NOT proved: see `nfc_*` below for what is.
+NFC: `nfc_model` (every input, as is and repaired: EOK ⇒ dest = D117 on the NFD), `nfc_is_uax15_fixed_partial` (repaired code = UAX #15
+NFC over UCD 14.0, all strings of assigned code points ≠ U+037E), `nfc_is_uax15_partial` (code as it is, when the NFD lies in the BMP).
+NFC idempotence is NOT proved (it needs the stability of NFC under re-decomposition); it is checked on the implementation.
 -/
 namespace SafeC.Props.C17
 open SafeC.Norm SafeC.Gen
@@ -171,10 +174,30 @@ theorem wcsfc_range_witness : (SafeC.Fold.wcsfcS unrepaired 64 [0x41, 0x110000])
     (SafeC.Fold.wcsfcS allFixed 64 [0x41, 0x110000]).ret = ESLEMAX ∧ (SafeC.Fold.wcsfcS allFixed 64 [0x41, 0x110000]).oob = false := by
   decide +kernel
 
-/-! ## NFC — what is proved; conformance of the composition pass for all strings rests on the correspondence
+/-! ## NFC
 
-Full statements (not proved): `∀ xs of assigned code points, (wcsnormS allFixed 1 dmax xs).ret = 0 → out = UAX15.NFC xs` and
-`NFC (NFC xs) = NFC xs`. -/
+`UAX15.nfd xs` = D68 + D109 over UCD 14.0, `UAX15.nfc xs` = D117 (last starter, not blocked per D115, primary composite per D114 incl.
+the Hangul rules of ch. 3.12) applied to it (Proofs/NormNFC2.lean, NormComposeSpec.lean: `d117`, UnicodeSpec.lean: `primaryComposite`).
+Not proved: NFC (NFC xs) = NFC xs. -/
+
+/-- `wcsnorm_s(dest, dmax, src, WCSNORM_NFC, &len)`, every input (any cells, any dmax), as it is and repaired: whenever it returns
+EOK, dest = the Canonical Composition (D117) of the model's NFD with the tree's classes and pair map, `*lenp` = its length `< dmax` -/
+theorem nfc_model (fx : Fixes) (dmax : Nat) (src : List Nat) (h0 : ∀ c ∈ src, c ≠ 0) (hret : (wcsnormS fx 1 dmax src).ret = 0) :
+    (wcsnormS fx 1 dmax src).out = nfcPure fx src ∧ (wcsnormS fx 1 dmax src).len = (nfcPure fx src).length ∧
+    (nfcPure fx src).length < dmax ∧ ∀ c ∈ src, c ≤ UniCompos.unicodeMax := wcsnormS_nfc_spec fx dmax src h0 hret
+
+/-- repaired code (`fixes/wcsnorm-composite-full-width.diff`): NFC of the model = UAX #15 NFC over UCD 14.0, every string (any
+length) of code points assigned in Unicode 14.0 other than U+037E.  (Rests on: classes equal, every composite a starter, and the
+pair map `_composite_cp`+`isExclusion` = D114 as functions on code points: `pcOf_eq_ucd`.) -/
+theorem nfc_is_uax15_fixed_partial (xs : List Nat) (h : ∀ c ∈ xs, UCD.assigned c = true ∧ c ≠ 0x37E) :
+    nfcPure allFixed xs = UAX15.nfc xs := nfcPure_fixed_is_uax15 xs h
+
+/-- code as it is: the same, when the NFD of the string lies in the BMP; the full statement is false: `nfc_cast_witness` -/
+theorem nfc_is_uax15_partial (xs : List Nat) (h : ∀ c ∈ xs, UCD.assigned c = true ∧ c ≠ 0x37E)
+    (hbmp : ∀ d ∈ UAX15.nfd xs, d < 0x10000) : nfcPure unrepaired xs = UAX15.nfc xs := nfcPure_unrepaired_is_uax15_bmp xs h hbmp
+
+example : UAX15.nfc [0x61, 0x323, 0x302] = [0x1EAD] ∧ UAX15.nfd [0x1EAD] = [0x61, 0x323, 0x302] ∧
+    (wcsnormS current 1 16 [0x61, 0x302, 0x323]).out = [0x1EAD] := by decide +kernel
 
 /-- the composition lists = UCD 14.0's primary composites: every primary composite is returned for its canonical pair and is
 not excluded (code as it is and repaired); every stored pair whose composite is assigned and not excluded is a primary
